@@ -108,9 +108,12 @@ func litSQL(v Val) string {
 	case KStr:
 		return "'" + strings.ReplaceAll(v.S, "'", "''") + "'"
 	case KDec:
+		// always two fraction digits: the literal then has the scale of the DECIMAL(8,2) columns
 		s := ratText(v.N)
 		if !strings.Contains(s, ".") {
-			s += ".0"
+			s += ".00"
+		} else if len(s)-strings.Index(s, ".") == 2 {
+			s += "0"
 		}
 		if strings.HasPrefix(s, "-") {
 			return "(" + s + ")"
